@@ -46,4 +46,5 @@ Definition wf_case (c : case) : bool :=
   | CEffects p _ => wf_tree p
   | CBytes _ _ _ => true
   | CMut _ _ => true
+  | CResolved _ rb ra => wf_tree rb && wf_tree ra
   end.
